@@ -97,7 +97,7 @@ def c_ident(name):
 def run_asn1c(asn1c, files, outdir, opts=(), timeout=120, env_extra=None, prefix=()):
     """like bundle.run_asn1c but keeps stdout and stderr apart and reports signals.
     Returns dict(rc, out, err, signal)."""
-    os.makedirs(outdir, exist_ok=True)
+    if outdir: os.makedirs(outdir, exist_ok=True)
     env = dict(os.environ, ASAN_OPTIONS="detect_leaks=0:abort_on_error=0")
     if env_extra: env.update(env_extra)
     cmd = list(prefix) + [asn1c, "-S", os.path.join(build.REPO, "skeletons")] + (["-D", outdir] if outdir else []) + list(opts) + list(files)
@@ -229,9 +229,10 @@ def skel_archive(cflags):
         if os.path.exists(lib): return lib
         res = pmap(lambda n: skel_object(n, cflags), names)
         bad = [e for o, e in res if e]
-        if bad: raise build.BuildError("skeleton does not compile with -std=c99: " + bad[0])
+        # with -DASN_DISABLE_*_SUPPORT some skeleton files are not meant to be compiled (asn1c does not copy them)
+        if bad and not cflags: raise build.BuildError("skeleton does not compile with -std=c99: " + bad[0])
         tmp = lib + ".tmp%d" % os.getpid()
-        r = _sh(["ar", "rcs", tmp] + [o for o, _ in res])
+        r = _sh(["ar", "rcs", tmp] + [o for o, e in res if not e])
         if r.returncode != 0: raise build.BuildError("ar failed " + r.stdout)
         os.replace(tmp, lib)
     return lib
